@@ -1,4 +1,501 @@
-//! Macro scenarios (C20): `M ...`.  Filled in by the C20 check.
-pub fn run_line(_line: &str) -> String {
-    "MUnimplemented".to_string()
+//! Macro scenarios (C20): `M ...`.  One line = one set of run-time argument values; every public arm of
+//! labels!, opts!, histogram_opts! and of the register_*! / register_*_with_registry! macros is invoked with it,
+//! each with and without trailing comma, next to its explicit-call twin.
+//!
+//! Line:   M name help ns sub ocon maps cl lp labels vals buckets x prefix rlabels [only <arm id>]
+//!         (strings hex, pairs/lists as in tok.rs; ns/sub/ocon shape the Opts / HistogramOpts VALUE handed to the
+//!          `$OPTS` arms; maps = the label maps of opts!; cl = the map of histogram_opts!; lp = the pairs of labels!;
+//!          labels = label names; vals = label values used to reach a child; x = observed value;
+//!          prefix/rlabels = the custom registry)
+//! Output: `[(id, [macro observations], [twin observations]); ...]` as Gallina terms (coq/Spec/SpecC20.v explains
+//!         the observation lists).  Arm ids and the `arm!` / `val!` lines below come from tools/c20_arms.py.
+//!
+//! The default registry is process-wide: every handle an invocation returned is unregistered from it afterwards,
+//! so each arm run starts with an empty default registry; the twin uses a fresh `Registry::new()` in its place.
+#![allow(unused_variables)]
+use crate::fmt::*;
+use crate::tok::Tok;
+use prometheus::core::{Collector, Desc};
+use prometheus::*;
+use std::collections::HashMap;
+use std::panic::{catch_unwind, AssertUnwindSafe};
+
+#[derive(Clone)]
+pub struct Cx {
+    name: String,
+    help: String,
+    opts: Opts,
+    hopts: HistogramOpts,
+    maps: Vec<Vec<(String, String)>>,
+    cl: Vec<(String, String)>,
+    lp: Vec<(String, String)>,
+    labels: Vec<String>,
+    vals: Vec<String>,
+    buckets: Vec<f64>,
+    x: f64,
+    prefix: Option<String>,
+    rlabels: Option<Vec<(String, String)>>,
+    only: Option<usize>,
+}
+impl Cx {
+    fn want(&self, id: usize) -> bool {
+        self.only.map_or(true, |o| o == id)
+    }
+    /// The registry remembers the label dimensions of every name it has ever seen, also after `unregister`, and the
+    /// default registry lives as long as the process: every register arm gets its own metric name `<name>_<arm id>`
+    /// (in the NAME argument and in the OPTS / HOPTS value alike).
+    fn for_arm(&self, id: usize) -> Cx {
+        let mut c = self.clone();
+        c.name = format!("{}_{}", self.name, id);
+        c.opts.name = c.name.clone();
+        c.hopts.common_opts.name = c.name.clone();
+        c
+    }
+}
+
+pub enum Target {
+    Default,
+    Named,
+}
+pub enum Form {
+    N,
+    V,
+    HN,
+    HB,
+    HV,
+}
+
+const OK: &str = "ORes (Ok tt)";
+const BAD: &str = "OBad";
+
+fn plain_opts(cx: &Cx, form: &Form) -> Opts {
+    match form {
+        Form::N => Opts::new(cx.name.clone(), cx.help.clone()),
+        Form::V => cx.opts.clone(),
+        _ => panic!("histogram form on a non-histogram arm"),
+    }
+}
+fn hist_opts(cx: &Cx, form: &Form) -> HistogramOpts {
+    match form {
+        Form::HN => HistogramOpts::new(cx.name.clone(), cx.help.clone()),
+        Form::HB => HistogramOpts::new(cx.name.clone(), cx.help.clone()).buckets(cx.buckets.clone()),
+        Form::HV => cx.hopts.clone(),
+        _ => panic!("plain form on a histogram arm"),
+    }
+}
+
+/// What the harness needs from the ten handle types: the explicit constructor and an update through the handle.
+pub trait Metric: Collector + Clone + 'static {
+    const VEC: bool;
+    fn build(cx: &Cx, form: &Form, labels: &[&str]) -> Result<Self>;
+    fn touch(&self, cx: &Cx) -> Vec<String>;
+}
+macro_rules! scalar_metric {
+    ($T:ty) => {
+        impl Metric for $T {
+            const VEC: bool = false;
+            fn build(cx: &Cx, form: &Form, _labels: &[&str]) -> Result<Self> {
+                <$T>::with_opts(plain_opts(cx, form))
+            }
+            fn touch(&self, _cx: &Cx) -> Vec<String> {
+                self.inc();
+                vec!["OUnit".to_string()]
+            }
+        }
+    };
+}
+macro_rules! vec_metric {
+    ($T:ty) => {
+        impl Metric for $T {
+            const VEC: bool = true;
+            fn build(cx: &Cx, form: &Form, labels: &[&str]) -> Result<Self> {
+                <$T>::new(plain_opts(cx, form), labels)
+            }
+            fn touch(&self, cx: &Cx) -> Vec<String> {
+                let v: Vec<&str> = cx.vals.iter().map(|s| s.as_str()).collect();
+                match self.get_metric_with_label_values(&v) {
+                    Ok(m) => {
+                        m.inc();
+                        vec![OK.to_string(), "OUnit".to_string()]
+                    }
+                    Err(e) => vec![format!("ORes (Err {})", cerr(&e)), BAD.to_string()],
+                }
+            }
+        }
+    };
+}
+scalar_metric!(Counter);
+scalar_metric!(IntCounter);
+scalar_metric!(Gauge);
+scalar_metric!(IntGauge);
+vec_metric!(CounterVec);
+vec_metric!(IntCounterVec);
+vec_metric!(GaugeVec);
+vec_metric!(IntGaugeVec);
+impl Metric for Histogram {
+    const VEC: bool = false;
+    fn build(cx: &Cx, form: &Form, _labels: &[&str]) -> Result<Self> {
+        Histogram::with_opts(hist_opts(cx, form))
+    }
+    fn touch(&self, cx: &Cx) -> Vec<String> {
+        self.observe(cx.x);
+        vec!["OUnit".to_string()]
+    }
+}
+impl Metric for HistogramVec {
+    const VEC: bool = true;
+    fn build(cx: &Cx, form: &Form, labels: &[&str]) -> Result<Self> {
+        HistogramVec::new(hist_opts(cx, form), labels)
+    }
+    fn touch(&self, cx: &Cx) -> Vec<String> {
+        let v: Vec<&str> = cx.vals.iter().map(|s| s.as_str()).collect();
+        match self.get_metric_with_label_values(&v) {
+            Ok(m) => {
+                m.observe(cx.x);
+                vec![OK.to_string(), "OUnit".to_string()]
+            }
+            Err(e) => vec![format!("ORes (Err {})", cerr(&e)), BAD.to_string()],
+        }
+    }
+}
+
+fn desc_obs(d: &Desc) -> String {
+    format!(
+        "({},{},{},{},{},{})",
+        cstr(&d.fq_name),
+        cstr(&d.help),
+        d.id,
+        d.dim_hash,
+        clist(&d.const_label_pairs, clp),
+        clist(&d.variable_labels, |s| cstr(s))
+    )
+}
+fn descs<M: Collector>(m: &M) -> String {
+    format!("ODescs {}", clist(&m.desc(), |d| desc_obs(d)))
+}
+fn gathered(r: &Registry) -> String {
+    format!("OFams {}", cmfs(&r.gather()))
+}
+fn new_custom(cx: &Cx) -> Result<Registry> {
+    let labels = cx.rlabels.as_ref().map(|l| {
+        let mut m = HashMap::new();
+        for (k, v) in l {
+            m.insert(k.clone(), v.clone());
+        }
+        m
+    });
+    Registry::new_custom(cx.prefix.clone(), labels)
+}
+fn no_handle<M: Metric>(o: &mut Vec<String>) {
+    // desc and the update(s) without a handle
+    o.push(BAD.to_string());
+    o.push(BAD.to_string());
+    if M::VEC {
+        o.push(BAD.to_string());
+    }
+}
+
+/// One arm: the macro invocation (twice) and its explicit twin (twice), each with both registries observed.
+fn run_arm<M: Metric>(
+    id: usize,
+    cx: &Cx,
+    lr: &[&str],
+    target: Target,
+    form: Form,
+    call: &dyn Fn(&Registry) -> Result<M>,
+) -> String {
+    // ---------------- the macro
+    let named = match new_custom(cx) {
+        Ok(r) => r,
+        Err(_) => return format!("({}, [OBad], [OBad])", id),
+    };
+    let dflt = default_registry();
+    let mut mo = vec![OK.to_string(), OK.to_string()];
+    let invoke = |mo: &mut Vec<String>| -> Option<M> {
+        match catch_unwind(AssertUnwindSafe(|| call(&named))) {
+            Ok(Ok(h)) => {
+                mo.push(OK.to_string());
+                Some(h)
+            }
+            Ok(Err(e)) => {
+                mo.push(format!("ORes (Err {})", cerr(&e)));
+                None
+            }
+            Err(_) => {
+                mo.push("OPanic".to_string());
+                None
+            }
+        }
+    };
+    let h1 = invoke(&mut mo);
+    match &h1 {
+        Some(h) => {
+            mo.push(descs(h));
+            mo.extend(h.touch(cx));
+        }
+        None => no_handle::<M>(&mut mo),
+    }
+    mo.push(gathered(dflt));
+    mo.push(gathered(&named));
+    let h2 = invoke(&mut mo);
+    mo.push(gathered(dflt));
+    mo.push(gathered(&named));
+    for h in [&h1, &h2].iter().filter_map(|h| h.as_ref()) {
+        let _ = unregister(Box::new(h.clone()));
+    }
+    // ---------------- the explicit calls
+    let tdef = Registry::new();
+    let tnamed = new_custom(cx).expect("custom registry");
+    let tgt = match target {
+        Target::Default => &tdef,
+        Target::Named => &tnamed,
+    };
+    let mut to = vec![OK.to_string(), OK.to_string()];
+    let c1 = M::build(cx, &form, lr);
+    to.push(cres(&c1));
+    match &c1 {
+        Ok(m) => {
+            to.push(cres(&tgt.register(Box::new(m.clone()))));
+            to.push(descs(m));
+            to.extend(m.touch(cx));
+        }
+        Err(_) => {
+            to.push(BAD.to_string());
+            no_handle::<M>(&mut to);
+        }
+    }
+    to.push(gathered(&tdef));
+    to.push(gathered(&tnamed));
+    let c2 = M::build(cx, &form, lr);
+    to.push(cres(&c2));
+    match &c2 {
+        Ok(m) => to.push(cres(&tgt.register(Box::new(m.clone())))),
+        Err(_) => to.push(BAD.to_string()),
+    }
+    to.push(gathered(&tdef));
+    to.push(gathered(&tnamed));
+    format!("({}, [{}], [{}])", id, mo.join("; "), to.join("; "))
+}
+
+// ---------------- labels! / opts! / histogram_opts!: the value built
+fn sorted_pairs(m: &HashMap<String, String>) -> String {
+    let mut v: Vec<(&String, &String)> = m.iter().collect();
+    v.sort();
+    clist(&v, |(k, x)| format!("(mkLP {} {})", cstr(k), cstr(x)))
+}
+fn opts_obs(o: &Opts) -> String {
+    format!(
+        "[OStr {}; OStr {}; ODescs [({},{},0,0,{},{})]]",
+        cstr(&o.namespace),
+        cstr(&o.subsystem),
+        cstr(&o.name),
+        cstr(&o.help),
+        sorted_pairs(&o.const_labels),
+        clist(&o.variable_labels, |s| cstr(s))
+    )
+}
+fn hopts_obs(h: &HistogramOpts) -> String {
+    let o = opts_obs(&h.common_opts);
+    format!("{}; OBuckets (Some {})]", &o[..o.len() - 1], clist(&h.buckets, |x| cf64(*x)))
+}
+fn map_obs(m: &HashMap<String, String>) -> String {
+    format!("[ODescs [([],[],0,0,{},[])]]", sorted_pairs(m))
+}
+fn twin_labels(lp: &[(String, String)]) -> HashMap<String, String> {
+    let mut m = HashMap::new();
+    for (k, v) in lp {
+        m.insert(k.clone(), v.clone());
+    }
+    m
+}
+fn twin_opts(cx: &Cx) -> Opts {
+    let mut m: HashMap<String, String> = HashMap::new();
+    for mp in &cx.maps {
+        for (k, v) in mp {
+            m.insert(k.clone(), v.clone());
+        }
+    }
+    Opts::new(cx.name.clone(), cx.help.clone()).const_labels(m)
+}
+fn twin_hopts(cx: &Cx, arm: usize) -> HistogramOpts {
+    let h = HistogramOpts::new(cx.name.clone(), cx.help.clone());
+    match arm {
+        0 => h,
+        1 => h.buckets(cx.buckets.clone()),
+        _ => h.buckets(cx.buckets.clone()).const_labels(twin_labels(&cx.cl)),
+    }
+}
+
+macro_rules! arm {
+    ($out:ident, $cx:ident, $lr:ident, $id:expr, $T:ty, $target:expr, $form:expr, |$r:ident| $call:expr) => {
+        if $cx.want($id) {
+            let cxa = $cx.for_arm($id);
+            let $cx = &cxa;
+            $out.push(run_arm::<$T>($id, $cx, &$lr, $target, $form, &|$r: &Registry| $call));
+        }
+    };
+}
+macro_rules! val {
+    ($out:ident, $cx:ident, $id:expr, $cond:expr, $mac:expr, $twin:expr) => {
+        if $cx.want($id) && $cond {
+            $out.push(format!("({}, {}, {})", $id, $mac, $twin));
+        }
+    };
+}
+
+fn run_all(cx: &Cx) -> Vec<String> {
+    let mut out: Vec<String> = vec![];
+    let lr: Vec<&str> = cx.labels.iter().map(|s| s.as_str()).collect();
+    let ms: Vec<HashMap<&str, &str>> = cx
+        .maps
+        .iter()
+        .map(|mp| {
+            let mut m = HashMap::new();
+            for (k, v) in mp {
+                m.insert(k.as_str(), v.as_str());
+            }
+            m
+        })
+        .collect();
+    let cl = twin_labels(&cx.cl);
+    // ---- generated by tools/c20_arms.py (begin)
+    arm!(out, cx, lr, 0, Counter, Target::Default, Form::V, |r| register_counter!(cx.opts.clone()));
+    arm!(out, cx, lr, 1, Counter, Target::Default, Form::V, |r| register_counter!(cx.opts.clone(),));
+    arm!(out, cx, lr, 2, Counter, Target::Default, Form::N, |r| register_counter!(cx.name.clone(), cx.help.clone()));
+    arm!(out, cx, lr, 3, Counter, Target::Default, Form::N, |r| register_counter!(cx.name.clone(), cx.help.clone(),));
+    arm!(out, cx, lr, 4, Counter, Target::Named, Form::V, |r| register_counter_with_registry!(cx.opts.clone(), r));
+    arm!(out, cx, lr, 5, Counter, Target::Named, Form::V, |r| register_counter_with_registry!(cx.opts.clone(), r,));
+    arm!(out, cx, lr, 6, Counter, Target::Named, Form::N, |r| register_counter_with_registry!(cx.name.clone(), cx.help.clone(), r));
+    arm!(out, cx, lr, 7, Counter, Target::Named, Form::N, |r| register_counter_with_registry!(cx.name.clone(), cx.help.clone(), r,));
+    arm!(out, cx, lr, 8, IntCounter, Target::Default, Form::V, |r| register_int_counter!(cx.opts.clone()));
+    arm!(out, cx, lr, 9, IntCounter, Target::Default, Form::V, |r| register_int_counter!(cx.opts.clone(),));
+    arm!(out, cx, lr, 10, IntCounter, Target::Default, Form::N, |r| register_int_counter!(cx.name.clone(), cx.help.clone()));
+    arm!(out, cx, lr, 11, IntCounter, Target::Default, Form::N, |r| register_int_counter!(cx.name.clone(), cx.help.clone(),));
+    arm!(out, cx, lr, 12, IntCounter, Target::Named, Form::V, |r| register_int_counter_with_registry!(cx.opts.clone(), r));
+    arm!(out, cx, lr, 13, IntCounter, Target::Named, Form::V, |r| register_int_counter_with_registry!(cx.opts.clone(), r,));
+    arm!(out, cx, lr, 14, IntCounter, Target::Named, Form::N, |r| register_int_counter_with_registry!(cx.name.clone(), cx.help.clone(), r));
+    arm!(out, cx, lr, 15, IntCounter, Target::Named, Form::N, |r| register_int_counter_with_registry!(cx.name.clone(), cx.help.clone(), r,));
+    arm!(out, cx, lr, 16, Gauge, Target::Default, Form::V, |r| register_gauge!(cx.opts.clone()));
+    arm!(out, cx, lr, 17, Gauge, Target::Default, Form::V, |r| register_gauge!(cx.opts.clone(),));
+    arm!(out, cx, lr, 18, Gauge, Target::Default, Form::N, |r| register_gauge!(cx.name.clone(), cx.help.clone()));
+    arm!(out, cx, lr, 19, Gauge, Target::Default, Form::N, |r| register_gauge!(cx.name.clone(), cx.help.clone(),));
+    arm!(out, cx, lr, 20, Gauge, Target::Named, Form::V, |r| register_gauge_with_registry!(cx.opts.clone(), r));
+    arm!(out, cx, lr, 21, Gauge, Target::Named, Form::V, |r| register_gauge_with_registry!(cx.opts.clone(), r,));
+    arm!(out, cx, lr, 22, Gauge, Target::Named, Form::N, |r| register_gauge_with_registry!(cx.name.clone(), cx.help.clone(), r));
+    arm!(out, cx, lr, 23, Gauge, Target::Named, Form::N, |r| register_gauge_with_registry!(cx.name.clone(), cx.help.clone(), r,));
+    arm!(out, cx, lr, 24, IntGauge, Target::Default, Form::V, |r| register_int_gauge!(cx.opts.clone()));
+    arm!(out, cx, lr, 25, IntGauge, Target::Default, Form::V, |r| register_int_gauge!(cx.opts.clone(),));
+    arm!(out, cx, lr, 26, IntGauge, Target::Default, Form::N, |r| register_int_gauge!(cx.name.clone(), cx.help.clone()));
+    arm!(out, cx, lr, 27, IntGauge, Target::Default, Form::N, |r| register_int_gauge!(cx.name.clone(), cx.help.clone(),));
+    arm!(out, cx, lr, 28, IntGauge, Target::Named, Form::V, |r| register_int_gauge_with_registry!(cx.opts.clone(), r));
+    arm!(out, cx, lr, 29, IntGauge, Target::Named, Form::V, |r| register_int_gauge_with_registry!(cx.opts.clone(), r,));
+    arm!(out, cx, lr, 30, IntGauge, Target::Named, Form::N, |r| register_int_gauge_with_registry!(cx.name.clone(), cx.help.clone(), r));
+    arm!(out, cx, lr, 31, IntGauge, Target::Named, Form::N, |r| register_int_gauge_with_registry!(cx.name.clone(), cx.help.clone(), r,));
+    arm!(out, cx, lr, 32, CounterVec, Target::Default, Form::V, |r| register_counter_vec!(cx.opts.clone(), &lr[..]));
+    arm!(out, cx, lr, 33, CounterVec, Target::Default, Form::V, |r| register_counter_vec!(cx.opts.clone(), &lr[..],));
+    arm!(out, cx, lr, 34, CounterVec, Target::Default, Form::N, |r| register_counter_vec!(cx.name.clone(), cx.help.clone(), &lr[..]));
+    arm!(out, cx, lr, 35, CounterVec, Target::Default, Form::N, |r| register_counter_vec!(cx.name.clone(), cx.help.clone(), &lr[..],));
+    arm!(out, cx, lr, 36, CounterVec, Target::Named, Form::V, |r| register_counter_vec_with_registry!(cx.opts.clone(), &lr[..], r));
+    arm!(out, cx, lr, 37, CounterVec, Target::Named, Form::V, |r| register_counter_vec_with_registry!(cx.opts.clone(), &lr[..], r,));
+    arm!(out, cx, lr, 38, CounterVec, Target::Named, Form::N, |r| register_counter_vec_with_registry!(cx.name.clone(), cx.help.clone(), &lr[..], r));
+    arm!(out, cx, lr, 39, CounterVec, Target::Named, Form::N, |r| register_counter_vec_with_registry!(cx.name.clone(), cx.help.clone(), &lr[..], r,));
+    arm!(out, cx, lr, 40, IntCounterVec, Target::Default, Form::V, |r| register_int_counter_vec!(cx.opts.clone(), &lr[..]));
+    arm!(out, cx, lr, 41, IntCounterVec, Target::Default, Form::V, |r| register_int_counter_vec!(cx.opts.clone(), &lr[..],));
+    arm!(out, cx, lr, 42, IntCounterVec, Target::Default, Form::N, |r| register_int_counter_vec!(cx.name.clone(), cx.help.clone(), &lr[..]));
+    arm!(out, cx, lr, 43, IntCounterVec, Target::Default, Form::N, |r| register_int_counter_vec!(cx.name.clone(), cx.help.clone(), &lr[..],));
+    arm!(out, cx, lr, 44, IntCounterVec, Target::Named, Form::V, |r| register_int_counter_vec_with_registry!(cx.opts.clone(), &lr[..], r));
+    arm!(out, cx, lr, 45, IntCounterVec, Target::Named, Form::V, |r| register_int_counter_vec_with_registry!(cx.opts.clone(), &lr[..], r,));
+    arm!(out, cx, lr, 46, IntCounterVec, Target::Named, Form::N, |r| register_int_counter_vec_with_registry!(cx.name.clone(), cx.help.clone(), &lr[..], r));
+    arm!(out, cx, lr, 47, IntCounterVec, Target::Named, Form::N, |r| register_int_counter_vec_with_registry!(cx.name.clone(), cx.help.clone(), &lr[..], r,));
+    arm!(out, cx, lr, 48, GaugeVec, Target::Default, Form::V, |r| register_gauge_vec!(cx.opts.clone(), &lr[..]));
+    arm!(out, cx, lr, 49, GaugeVec, Target::Default, Form::V, |r| register_gauge_vec!(cx.opts.clone(), &lr[..],));
+    arm!(out, cx, lr, 50, GaugeVec, Target::Default, Form::N, |r| register_gauge_vec!(cx.name.clone(), cx.help.clone(), &lr[..]));
+    arm!(out, cx, lr, 51, GaugeVec, Target::Default, Form::N, |r| register_gauge_vec!(cx.name.clone(), cx.help.clone(), &lr[..],));
+    arm!(out, cx, lr, 52, GaugeVec, Target::Named, Form::V, |r| register_gauge_vec_with_registry!(cx.opts.clone(), &lr[..], r));
+    arm!(out, cx, lr, 53, GaugeVec, Target::Named, Form::V, |r| register_gauge_vec_with_registry!(cx.opts.clone(), &lr[..], r,));
+    arm!(out, cx, lr, 54, GaugeVec, Target::Named, Form::N, |r| register_gauge_vec_with_registry!(cx.name.clone(), cx.help.clone(), &lr[..], r));
+    arm!(out, cx, lr, 55, GaugeVec, Target::Named, Form::N, |r| register_gauge_vec_with_registry!(cx.name.clone(), cx.help.clone(), &lr[..], r,));
+    arm!(out, cx, lr, 56, IntGaugeVec, Target::Default, Form::V, |r| register_int_gauge_vec!(cx.opts.clone(), &lr[..]));
+    arm!(out, cx, lr, 57, IntGaugeVec, Target::Default, Form::V, |r| register_int_gauge_vec!(cx.opts.clone(), &lr[..],));
+    arm!(out, cx, lr, 58, IntGaugeVec, Target::Default, Form::N, |r| register_int_gauge_vec!(cx.name.clone(), cx.help.clone(), &lr[..]));
+    arm!(out, cx, lr, 59, IntGaugeVec, Target::Default, Form::N, |r| register_int_gauge_vec!(cx.name.clone(), cx.help.clone(), &lr[..],));
+    arm!(out, cx, lr, 60, IntGaugeVec, Target::Named, Form::V, |r| register_int_gauge_vec_with_registry!(cx.opts.clone(), &lr[..], r));
+    arm!(out, cx, lr, 61, IntGaugeVec, Target::Named, Form::V, |r| register_int_gauge_vec_with_registry!(cx.opts.clone(), &lr[..], r,));
+    arm!(out, cx, lr, 62, IntGaugeVec, Target::Named, Form::N, |r| register_int_gauge_vec_with_registry!(cx.name.clone(), cx.help.clone(), &lr[..], r));
+    arm!(out, cx, lr, 63, IntGaugeVec, Target::Named, Form::N, |r| register_int_gauge_vec_with_registry!(cx.name.clone(), cx.help.clone(), &lr[..], r,));
+    arm!(out, cx, lr, 64, Histogram, Target::Default, Form::HN, |r| register_histogram!(cx.name.clone(), cx.help.clone()));
+    arm!(out, cx, lr, 65, Histogram, Target::Default, Form::HN, |r| register_histogram!(cx.name.clone(), cx.help.clone(),));
+    arm!(out, cx, lr, 66, Histogram, Target::Default, Form::HB, |r| register_histogram!(cx.name.clone(), cx.help.clone(), cx.buckets.clone()));
+    arm!(out, cx, lr, 67, Histogram, Target::Default, Form::HB, |r| register_histogram!(cx.name.clone(), cx.help.clone(), cx.buckets.clone(),));
+    arm!(out, cx, lr, 68, Histogram, Target::Default, Form::HV, |r| register_histogram!(cx.hopts.clone()));
+    arm!(out, cx, lr, 69, Histogram, Target::Default, Form::HV, |r| register_histogram!(cx.hopts.clone(),));
+    arm!(out, cx, lr, 70, Histogram, Target::Named, Form::HN, |r| register_histogram_with_registry!(cx.name.clone(), cx.help.clone(), r));
+    arm!(out, cx, lr, 71, Histogram, Target::Named, Form::HN, |r| register_histogram_with_registry!(cx.name.clone(), cx.help.clone(), r,));
+    arm!(out, cx, lr, 72, Histogram, Target::Named, Form::HB, |r| register_histogram_with_registry!(cx.name.clone(), cx.help.clone(), cx.buckets.clone(), r));
+    arm!(out, cx, lr, 73, Histogram, Target::Named, Form::HB, |r| register_histogram_with_registry!(cx.name.clone(), cx.help.clone(), cx.buckets.clone(), r,));
+    arm!(out, cx, lr, 74, Histogram, Target::Named, Form::HV, |r| register_histogram_with_registry!(cx.hopts.clone(), r));
+    arm!(out, cx, lr, 75, Histogram, Target::Named, Form::HV, |r| register_histogram_with_registry!(cx.hopts.clone(), r,));
+    arm!(out, cx, lr, 76, HistogramVec, Target::Default, Form::HV, |r| register_histogram_vec!(cx.hopts.clone(), &lr[..]));
+    arm!(out, cx, lr, 77, HistogramVec, Target::Default, Form::HV, |r| register_histogram_vec!(cx.hopts.clone(), &lr[..],));
+    arm!(out, cx, lr, 78, HistogramVec, Target::Default, Form::HN, |r| register_histogram_vec!(cx.name.clone(), cx.help.clone(), &lr[..]));
+    arm!(out, cx, lr, 79, HistogramVec, Target::Default, Form::HN, |r| register_histogram_vec!(cx.name.clone(), cx.help.clone(), &lr[..],));
+    arm!(out, cx, lr, 80, HistogramVec, Target::Default, Form::HB, |r| register_histogram_vec!(cx.name.clone(), cx.help.clone(), &lr[..], cx.buckets.clone()));
+    arm!(out, cx, lr, 81, HistogramVec, Target::Default, Form::HB, |r| register_histogram_vec!(cx.name.clone(), cx.help.clone(), &lr[..], cx.buckets.clone(),));
+    arm!(out, cx, lr, 82, HistogramVec, Target::Named, Form::HV, |r| register_histogram_vec_with_registry!(cx.hopts.clone(), &lr[..], r));
+    arm!(out, cx, lr, 83, HistogramVec, Target::Named, Form::HV, |r| register_histogram_vec_with_registry!(cx.hopts.clone(), &lr[..], r,));
+    arm!(out, cx, lr, 84, HistogramVec, Target::Named, Form::HN, |r| register_histogram_vec_with_registry!(cx.name.clone(), cx.help.clone(), &lr[..], r));
+    arm!(out, cx, lr, 85, HistogramVec, Target::Named, Form::HN, |r| register_histogram_vec_with_registry!(cx.name.clone(), cx.help.clone(), &lr[..], r,));
+    arm!(out, cx, lr, 86, HistogramVec, Target::Named, Form::HB, |r| register_histogram_vec_with_registry!(cx.name.clone(), cx.help.clone(), &lr[..], cx.buckets.clone(), r));
+    arm!(out, cx, lr, 87, HistogramVec, Target::Named, Form::HB, |r| register_histogram_vec_with_registry!(cx.name.clone(), cx.help.clone(), &lr[..], cx.buckets.clone(), r,));
+    val!(out, cx, 88, cx.lp.len() == 0, map_obs(&labels!{}), map_obs(&twin_labels(&cx.lp)));
+    val!(out, cx, 89, cx.lp.len() == 0, map_obs(&labels!{,}), map_obs(&twin_labels(&cx.lp)));
+    val!(out, cx, 90, cx.lp.len() == 1, map_obs(&labels!{cx.lp[0].0.clone() => cx.lp[0].1.clone()}), map_obs(&twin_labels(&cx.lp)));
+    val!(out, cx, 91, cx.lp.len() == 1, map_obs(&labels!{cx.lp[0].0.clone() => cx.lp[0].1.clone(),}), map_obs(&twin_labels(&cx.lp)));
+    val!(out, cx, 92, cx.lp.len() == 2, map_obs(&labels!{cx.lp[0].0.clone() => cx.lp[0].1.clone(), cx.lp[1].0.clone() => cx.lp[1].1.clone()}), map_obs(&twin_labels(&cx.lp)));
+    val!(out, cx, 93, cx.lp.len() == 2, map_obs(&labels!{cx.lp[0].0.clone() => cx.lp[0].1.clone(), cx.lp[1].0.clone() => cx.lp[1].1.clone(),}), map_obs(&twin_labels(&cx.lp)));
+    val!(out, cx, 94, cx.lp.len() == 3, map_obs(&labels!{cx.lp[0].0.clone() => cx.lp[0].1.clone(), cx.lp[1].0.clone() => cx.lp[1].1.clone(), cx.lp[2].0.clone() => cx.lp[2].1.clone()}), map_obs(&twin_labels(&cx.lp)));
+    val!(out, cx, 95, cx.lp.len() == 3, map_obs(&labels!{cx.lp[0].0.clone() => cx.lp[0].1.clone(), cx.lp[1].0.clone() => cx.lp[1].1.clone(), cx.lp[2].0.clone() => cx.lp[2].1.clone(),}), map_obs(&twin_labels(&cx.lp)));
+    val!(out, cx, 96, ms.len() == 0, opts_obs(&opts!(cx.name.clone(), cx.help.clone())), opts_obs(&twin_opts(cx)));
+    val!(out, cx, 97, ms.len() == 0, opts_obs(&opts!(cx.name.clone(), cx.help.clone(),)), opts_obs(&twin_opts(cx)));
+    val!(out, cx, 98, ms.len() == 1, opts_obs(&opts!(cx.name.clone(), cx.help.clone(), ms[0].clone())), opts_obs(&twin_opts(cx)));
+    val!(out, cx, 99, ms.len() == 1, opts_obs(&opts!(cx.name.clone(), cx.help.clone(), ms[0].clone(),)), opts_obs(&twin_opts(cx)));
+    val!(out, cx, 100, ms.len() == 2, opts_obs(&opts!(cx.name.clone(), cx.help.clone(), ms[0].clone(), ms[1].clone())), opts_obs(&twin_opts(cx)));
+    val!(out, cx, 101, ms.len() == 2, opts_obs(&opts!(cx.name.clone(), cx.help.clone(), ms[0].clone(), ms[1].clone(),)), opts_obs(&twin_opts(cx)));
+    val!(out, cx, 102, ms.len() == 3, opts_obs(&opts!(cx.name.clone(), cx.help.clone(), ms[0].clone(), ms[1].clone(), ms[2].clone())), opts_obs(&twin_opts(cx)));
+    val!(out, cx, 103, ms.len() == 3, opts_obs(&opts!(cx.name.clone(), cx.help.clone(), ms[0].clone(), ms[1].clone(), ms[2].clone(),)), opts_obs(&twin_opts(cx)));
+    val!(out, cx, 104, true, hopts_obs(&histogram_opts!(cx.name.clone(), cx.help.clone())), hopts_obs(&twin_hopts(cx, 0)));
+    val!(out, cx, 105, true, hopts_obs(&histogram_opts!(cx.name.clone(), cx.help.clone(),)), hopts_obs(&twin_hopts(cx, 0)));
+    val!(out, cx, 106, true, hopts_obs(&histogram_opts!(cx.name.clone(), cx.help.clone(), cx.buckets.clone())), hopts_obs(&twin_hopts(cx, 1)));
+    val!(out, cx, 107, true, hopts_obs(&histogram_opts!(cx.name.clone(), cx.help.clone(), cx.buckets.clone(),)), hopts_obs(&twin_hopts(cx, 1)));
+    val!(out, cx, 108, true, hopts_obs(&histogram_opts!(cx.name.clone(), cx.help.clone(), cx.buckets.clone(), cl.clone())), hopts_obs(&twin_hopts(cx, 2)));
+    val!(out, cx, 109, true, hopts_obs(&histogram_opts!(cx.name.clone(), cx.help.clone(), cx.buckets.clone(), cl.clone(),)), hopts_obs(&twin_hopts(cx, 2)));
+    // ---- generated by tools/c20_arms.py (end)
+    out
+}
+
+pub fn run_line(line: &str) -> String {
+    let mut t = Tok::new(line);
+    assert_eq!(t.word(), "M");
+    let name = t.string();
+    let help = t.string();
+    let ns = t.string();
+    let sub = t.string();
+    let ocon = t.pairs();
+    let maps = t.list(|t| t.pairs());
+    let cl = t.pairs();
+    let lp = t.pairs();
+    let labels = t.strings();
+    let vals = t.strings();
+    let buckets = t.list(|t| t.f64());
+    let x = t.f64();
+    let prefix = t.opt(|t| t.string());
+    let rlabels = t.opt(|t| t.pairs());
+    let only = if !t.done() && t.word() == "only" { Some(t.usize()) } else { None };
+    let mut opts = Opts::new(name.clone(), help.clone()).namespace(ns).subsystem(sub);
+    for (k, v) in &ocon {
+        opts = opts.const_label(k.clone(), v.clone());
+    }
+    let hopts = HistogramOpts::from(opts.clone()).buckets(buckets.clone());
+    let cx = Cx { name, help, opts, hopts, maps, cl, lp, labels, vals, buckets, x, prefix, rlabels, only };
+    format!("[{}]", run_all(&cx).join("; "))
 }
